@@ -162,6 +162,29 @@ def judge_pvv(ctx, case):
     if not (isinstance(got, str) and len(got) == 4 and got.isdigit()):
         fail(ctx, case, 'pvv:not_four_decimal_digits', {'got': repr(got)})
         return
+    # the same pin block object asked again for another card, another key index and another key: each answer is the PVV of
+    # what was asked, not of what was asked before
+    if via != 'function':
+        def pvv_ref(pan_, idx_, key_):
+            return ref.pvv_from_cipher_hex(refc.tdes_ecb_encrypt(bytes.fromhex(key_), bytes.fromhex(ref.pvv_tsp(pin, pan_, idx_))).hex())
+        pan2 = pan[:-5] + str((int(pan[-5]) + 1) % 10) + pan[-4:]
+        key2 = key[:-2] + ('%02x' % (int(key[-2:], 16) ^ 0x10))
+        asks = [(pan, idx, key), (pan2, idx, key), (pan, (idx + 1) % 10, key), (pan, idx, key2), (pan2, idx, key), (pan, idx, key)]
+        if via == 'mixin0':
+            obj = ctx.mix0(pin=pin, card_number=pan)
+        else:
+            obj = ctx.mix4(pin=pin)
+        for pan_, idx_, key_ in asks:
+            if via == 'mixin0':
+                obj.card_number = pan_          # a format-0 block carries its card number: point it at the other card
+                ok, got2 = call(ctx, case, 'to_pvv', obj.to_pvv, pvv_key=key_, key_index=idx_)
+            else:
+                ok, got2 = call(ctx, case, 'to_pvv', obj.to_pvv, pvv_key=key_, key_index=idx_, card_number=pan_)
+            ctx.count('repeated to_pvv calls on one pin block object')
+            if not ok or got2 != pvv_ref(pan_, idx_, key_):
+                fail(ctx, case, 'pvv:wrong_value_on_a_repeated_call_with_other_arguments', {'asked': [pan_, idx_, key_], 'got': repr(got2),
+                                                                                          'want': pvv_ref(pan_, idx_, key_)})
+                return
     if d >= 2 or len(ctx.samples) < 2:
         ctx.sample({'pin': pin, 'pan': pan, 'index': idx, 'key_bytes': len(kb), 'ciphertext': ct, 'pvv': want,
                     'second_scan_digits': d})
